@@ -292,3 +292,80 @@ Proof.
   destruct (apply_path_alone base (x :: r) s a a A G L Hokp) as (s' & E' & A' & G' & F' & M').
   exists s'. split; [exact E'|]. split; [rewrite Lb in A'; exact A'|]. split; [exact G'|split; assumption].
 Qed.
+
+(** ** ancestors of a fully valid block are fully valid *)
+Lemma anc_ok : forall s to bto, wf s -> scoh s ->
+    bfind (blocks _ _ s) to = Some bto -> valid_upto _ bto L_FULL = true ->
+    forall i, Z.of_nat i <= dep s to ->
+    exists b, bfind (blocks _ _ s) (up (cores s) i to) = Some b /\ N.le L_FULL (b_lvl _ b) /\ is_failed _ b = false.
+Proof.
+  intros s to bto W C Fto Hv. pose proof (find_cfind _ _ _ Fto) as Cto.
+  destruct (dep_facts s to _ W C Cto) as (_ & _ & Hmin).
+  induction i as [|i IH]; intros Hi.
+  - exists bto. cbn. split; [exact Fto|]. unfold valid_upto in Hv. apply andb_prop in Hv. destruct Hv as [Hf Hl].
+    split; [apply N.leb_le; exact Hl|apply negb_true_iff; exact Hf].
+  - destruct IH as (b & Fb & Hl & Hf); [lia|].
+    assert (Hnr : up (cores s) i to <> root _ _ s) by (apply Hmin; lia).
+    pose proof (find_cfind _ _ _ Fb) as Cb. destruct (wf_closed s W _ _ Cb) as (pe & Hpe). destruct (core_find _ _ _ Hpe) as (pb & Fpb & _).
+    change (e_par (core b)) with (b_par ccmd b) in Fpb.
+    rewrite up_succ_r. unfold parent. rewrite Cb. change (e_par (core b)) with (b_par ccmd b).
+    exists pb. split; [exact Fpb|]. destruct C as (_ & _ & C1 & C2 & _). split.
+    + specialize (C2 _ _ _ Fb Hnr Fpb). lia.
+    + destruct (is_failed ccmd pb) eqn:Fp; [|reflexivity]. exfalso. pose proof (C1 _ _ _ Fb Hnr Fpb Fp) as Hfc.
+      unfold is_failed in Hf. rewrite Hfc in Hf. rewrite !orb_true_r in Hf. discriminate.
+Qed.
+
+Lemma ginv_unapply_range : forall base s a b s', ginv base s -> unapply pstate ccmd cunexec s a b = Ok s' -> ginv base s'.
+Proof. intros base s a b s'. apply (Inv_unapply_range pstate ccmd cunexec (ginv base) (ginv_unapply base)). Qed.
+
+(** C20: re-activation. From every reachable state, setState to a block that is at the fully-valid level and not
+    invalidated (neither itself nor - by coherence - any ancestor) returns true; no assert is hit on the way. *)
+Theorem reactivation : forall base s to bto,
+    reachable base s -> bfind (blocks _ _ s) to = Some bto -> valid_upto _ bto L_FULL = true ->
+    exists s', c_setState s to = Ok (s', true).
+Proof.
+  intros base s to bto R Fto Hv. destruct (reachable_good _ _ R) as (Q & C & K & T & U).
+  pose proof Q as (W & Ta & Hn). assert (G : ginv base s) by (split; [split; assumption|split; assumption]).
+  destruct (is_act_find _ _ Ta) as (bt & Ft & At). pose proof (find_cfind _ _ _ Ft) as Ct. pose proof (find_cfind _ _ _ Fto) as Cto.
+  unfold c_setState, setState. rewrite Ft, Fto.
+  assert (Hchk : negb (Z.eqb (b_h ccmd bt + 1) (root_h pstate ccmd s + Z.of_N (napp pstate ccmd s))) = false).
+  { apply negb_false_iff. apply Z.eqb_eq. rewrite root_h_hgt. assert (hgt (cores s) (tip _ _ s) = b_h ccmd bt) by (unfold hgt; rewrite Ct; reflexivity). lia. }
+  rewrite Hchk.
+  destruct (N.eqb (tip pstate ccmd s) to) eqn:Ett.
+  { cbn [bind]. rewrite Fto, Hv. eexists. reflexivity. }
+  apply N.eqb_neq in Ett.
+  (* the fork block *)
+  pose proof (dep_bound s _ _ W K Ct) as Db1. pose proof (dep_bound s _ _ W K Cto) as Db2.
+  destruct (dep_facts s _ _ W K Ct) as (D1 & _ & _). destruct (dep_facts s _ _ W K Cto) as (D2 & _ & Hmin2).
+  destruct (lca_spec s W K (2 * fuel_of pstate ccmd s) (tip _ _ s) to _ _ Ct Cto) as (fork & ka & kb & Hl & Hf1 & Hf2 & Ka & Kb & _).
+  { unfold fuel_of. lia. }
+  unfold sm_setState. apply N.eqb_neq in Ett. rewrite Ett. rewrite Hl.
+  (* unapply down to the fork *)
+  destruct (unapply_total ka s (tip _ _ s) (fuel_of pstate ccmd s) Q K Ka) as (s1 & E1 & A1 & F1).
+  { unfold fuel_of. lia. }
+  rewrite <- Hf1 in E1, A1.
+  assert (Eu : unapply pstate ccmd cunexec s (tip pstate ccmd s) fork = Ok s1).
+  { unfold unapply. rewrite E1. cbn. rewrite N.eqb_refl. reflexivity. }
+  rewrite Eu. cbn [bind].
+  pose proof (ginv_unapply_range _ _ _ _ _ G Eu) as G1. pose proof (md_unapply_range _ _ _ _ Eu) as M1.
+  pose proof (fr_static _ _ F1) as S1.
+  assert (K1 : scoh s1) by (exact (proj2 (proj1 G1))).
+  (* apply the target branch alone *)
+  assert (Cto1 : exists e1, cfind (cores s1) to = Some e1).
+  { destruct (static_find _ _ to bto (proj1 M1) Fto) as (b1 & Fb1). exists (core b1). apply find_cfind. exact Fb1. }
+  destruct Cto1 as (e1 & Cto1).
+  assert (Hdep1 : dep s1 to = dep s to) by (unfold dep; rewrite (fr_root _ _ F1), !(hgt_static _ _ _ S1); reflexivity).
+  destruct (apply_alone_total base s1 fork to kb e1 A1 G1 K1 Cto1) as (s2 & E2 & A2 & G2 & F2 & M2).
+  { rewrite (up_static _ _ kb to S1). exact Hf2. }
+  { rewrite Hdep1. exact Kb. }
+  { intros i Hi. rewrite (up_static _ _ i to S1). eapply okblk_md; [exact M1|exact (fr_root _ _ F1)|].
+    split; [apply Hmin2; lia|]. apply (anc_ok s to bto W K Fto Hv). lia. }
+  rewrite E2. cbn [bind].
+  (* the target is still fully valid *)
+  pose proof (md_trans _ _ _ _ M1 M2) as M12.
+  destruct (static_find _ _ to bto (proj1 M12) Fto) as (b2 & Fb2). rewrite Fb2.
+  destruct (md_nobody_failed _ _ _ _ _ M12 Fto Fb2) as [Hf Hlv].
+  assert (Hv2 : valid_upto ccmd b2 L_FULL = true).
+  { unfold valid_upto in *. rewrite Hf, Hlv. exact Hv. }
+  rewrite Hv2. eexists. reflexivity.
+Qed.
